@@ -1307,7 +1307,9 @@ static void CodeALIGN(Word Index) {
                 CodeLen = NewPC - EProgCounter();
                 if (1 == ArgCnt) {
                     DontPrint = !!CodeLen;
-                    BookKeeping();
+                    if (CodeLen) {
+                        BookKeeping();
+                    }
                 } else if (CodeLen > (LongInt)MaxCodeLen) {
                     WrError(ErrNum_CodeOverflow);
                 } else {
